@@ -219,6 +219,24 @@ func genC15(r *Rng, n int, tier string, emit func(Case)) {
 			default:
 				e = t.genBool(d)
 			}
+			if rr.Chance(1, 3) {
+				// ES5 allows every IdentifierName after a dot, reserved words included (product.new, label.for, x.default)
+				kws := []string{"default", "new", "in", "for", "this", "typeof", "if", "else", "delete", "void", "class", "null", "true", "false",
+					"function", "var", "return", "do", "while", "with", "try", "catch", "finally", "throw", "switch", "case", "break", "continue",
+					"instanceof", "debugger", "enum", "export", "extends", "import", "super", "const", "let", "static", "yield", "get", "set"}
+				m := eDot(eId([]string{"abc", "o", "product"}[rr.Intn(3)]), kws[rr.Intn(len(kws))])
+				if rr.Bool() {
+					m = eDot(m, kws[rr.Intn(len(kws))])
+				}
+				switch rr.Intn(3) {
+				case 0:
+					e = m
+				case 1:
+					e = eCond(m, e, eDot(eId("o"), kws[rr.Intn(len(kws))]))
+				default:
+					e = eCall(eId("f"), e, m)
+				}
+			}
 			emit(Case{"kind": "parse", "src": printExprStmt(e), "expect": e, "bucket": "subset"})
 		case 3, 4, 5, 6: // mutated corpus
 			m := mutate(rr, jsSeeds[rr.Intn(len(jsSeeds))])
